@@ -498,6 +498,9 @@ impl<'a> LiveEvents<'a> {
                         idx: 0,
                         reference_location: location,
                     });
+                    if let Some(budget) = self.budget.as_mut() {
+                        budget.alias_replay_starts();
+                    }
                     return self.next_impl();
                 }
 
@@ -601,7 +604,19 @@ impl<'a> LiveEvents<'a> {
         };
 
         let raw = match ev {
-            Ev::Scalar { value, style, .. } => Event::Scalar(Cow::Borrowed(value), *style, 0, None),
+            Ev::Scalar {
+                value, style, tag, ..
+            } => {
+                // Only the presence of a tag matters to the budget (a tagged `<<` is not a merge
+                // key), so a placeholder stands in for the original tag.
+                let tag = (*tag != SfTag::None).then(|| {
+                    Cow::Owned(saphyr_parser::Tag {
+                        handle: String::from("!"),
+                        suffix: String::new(),
+                    })
+                });
+                Event::Scalar(Cow::Borrowed(value), *style, 0, tag)
+            }
             Ev::SeqStart { .. } => Event::SequenceStart(0, None),
             Ev::SeqEnd { .. } => Event::SequenceEnd,
             Ev::MapStart { .. } => Event::MappingStart(0, None),
